@@ -305,6 +305,59 @@ def rule_same(ctx, rep):
                       "%d calls to Project::semantic, %d direct analysis calls" % (len(cs), len(other)))
 
 
+def rule_stateless(ctx, rep):
+    r = rep.rule("R-C11-stateless", "the LSP adapter keeps no state of its own between notifications (LspProject wraps the project and nothing else; the "
+                                    "server holds only the channel and the project), and LspProject::semantic runs Project::semantic on every path that "
+                                    "has a file path - so published diagnostics are a function of the project's current sources", floor=3)
+    a = ctx.facts.adts.get("ironplcc::lsp_project::LspProject")
+    if not a:
+        rep.error("R-C11-stateless", "struct LspProject not found")
+        return
+    flds = [(f["name"], f["ty"]) for f in a["variants"][0]["fields"]]
+    where = "%s:%d" % (a["file"], a["line"])
+    extra = [n for n, t in flds if "dyn ironplcc::project::Project" not in t]
+    if not extra:
+        r.ok("LspProject|fields=" + ",".join(n for n, _ in flds), where)
+    else:
+        r.finding("LspProject|extra-state:" + ",".join(extra), where, "LspProject carries state besides the wrapped project (%s): what is published can depend on the edit history" % extra)
+    s = ctx.facts.adts.get("ironplcc::lsp::LspServer")
+    if s:
+        sf = [(f["name"], f["ty"]) for f in s["variants"][0]["fields"]]
+        extra = [n for n, t in sf if not ("Sender<" in t or t.endswith("LspProject"))]
+        if not extra:
+            r.ok("LspServer|fields=" + ",".join(n for n, _ in sf), "%s:%d" % (s["file"], s["line"]))
+        else:
+            r.finding("LspServer|extra-state:" + ",".join(extra), "%s:%d" % (s["file"], s["line"]), "the server keeps per-history state (%s)" % extra)
+    bs = ctx.prog.get("ironplcc::lsp_project::LspProject::semantic")
+    if bs:
+        b = bs[0]
+        sem = [c for c in b.calls() if c.u == "ironplcc::project::Project::semantic" or (c.callee or "").endswith("Project>::semantic")]
+        # every return that is reached through the Ok arm of to_file_path() must pass a Project::semantic call
+        ok = bool(sem)
+        if sem:
+            avoid = {c.bb for c in sem}
+            # blocks reachable from entry without passing semantic
+            reach_wo = b.reachable(0, avoid=avoid)
+            for rb in b.returns():
+                if rb in reach_wo:
+                    # allowed only on the path where the URL is not a file path (Err arm of to_file_path)
+                    through_ok_arm = False
+                    for i in sorted(reach_wo):
+                        si = switch_info(b, i)
+                        if si and si["kind"] == "disc" and si["subject"][0] == "call" and (si["subject"][1].callee or "").endswith("Url::to_file_path"):
+                            for succ, labs in si["edges"].items():
+                                if labs == ["Ok"] and rb in b.reachable(succ, avoid=avoid):
+                                    through_ok_arm = True
+                    if through_ok_arm:
+                        ok = False
+        inst = "LspProject::semantic|always analyses"
+        w = "%s:%d" % (b.f["file"], b.f["line"])
+        if ok:
+            r.ok(inst, w)
+        else:
+            r.finding("LspProject::semantic|can-return-without-analysis", w, "a path with a valid file path returns without calling Project::semantic (cached / stale diagnostics)")
+
+
 def run(ctx, rep):
     rep.not_decided += ["equality of published content with a freshly started server", "equality of positions with `check` beyond the shared entry point",
                         "history independence beyond cache coherence and R-C06-hash (hash order depends on insertion history)"]
@@ -313,3 +366,4 @@ def run(ctx, rep):
     rule_last(ctx, rep)
     rule_cache(ctx, rep)
     rule_same(ctx, rep)
+    rule_stateless(ctx, rep)
